@@ -74,7 +74,7 @@ def hunt(crate, r, ctx):
     why = []
     pretty = crate.meta[h.name][3]
     for label, grid, tol in modes:
-        hc = core.Crate(ctx.prop_id, "hunt_" + label, features=crate.features, extra_deps=crate.extra_deps)
+        hc = core.Crate(ctx.prop_id, "hunt_" + label, features=crate.features, extra_deps=crate.extra_deps, rrtk_dep=crate.rrtk_dep)
         hc.write(_crate_source(part, driver.SK_FFI, grid, tol), part.get("extra_files"))
         jd = os.path.join(hc.dir, "job")
         shutil.rmtree(jd, ignore_errors=True)
